@@ -1,6 +1,7 @@
 """C10 — the running server and a restart from its disk are indistinguishable."""
 import os
 import seqlib
+import fscklib
 import vlib
 from vlib import Break
 
@@ -34,6 +35,16 @@ def run(ctx):
                                        "line": mism[0].split(" :: ")[-1][:2000]})
             except Break as b:
                 ctx.breaks.append(b)
+    if ok_go:
+        # resource exhaustion: every allocation path at the exact boundary of a full disk (harness reclaim)
+        rl = fscklib.run_images(ctx, ok_drv, "reclaim", ["reclaim", "-seed", str(ctx.seed)] + (["-hists", "9", "-rounds", "3"] if ctx.tier == "thorough" else ["-hists", "3", "-rounds", "1"]), set(), False)
+        fscklib.oracle_lines(ctx, rl, "C10", "harness reclaim -seed %d (full-disk scenarios)" % ctx.seed)
+        for l in rl or []:
+            if l.startswith("# HIST"):
+                for kv in l.split()[2:]:
+                    k, v = kv.split("=")
+                    if k.endswith(":nospc"):
+                        ctx.cov["nospc_replies"] = ctx.cov.get("nospc_replies", 0) + int(v)
     vlib.finish(
         ctx, "proof",
         "theorems: inode, directory-entry and handle codecs are bijective on well-formed values; the inode-cache protocol (load, in-place modify+write, evict, commit, "
